@@ -41,6 +41,42 @@ CHECKS = {
         text="Chains 2..8 (32 thorough), rectangular and triangular grids (periodic and open) for every ordered side pair in 2..6 (10), cubic grids for every side triple in 2..4 (6): constructibility, site numbering bijection, neighbour symmetry/irreflexivity, adjacency symmetry/regularity/degree bound, equality/hash, flatten-unflatten and a real jit boundary preserving every dataclass field and the adjacency matrix.",
         note="open triangular lattices with an odd number of rows are counted but not judged (outside the property's parenthesis); default hop_signs/coord_num.",
         design="2/C20"),
+    "C05": dict(
+        engine="probmc+seqmc",
+        technique="exact field average over ALL histories of tensor Gauss-Hermite nodes pushed through k real propagate_free() calls; per-history explicit-matrix bookkeeping oracle; dt-ladder ratio test against expm in Fock space; free-projection sampler over every virtual-RNG stream",
+        text="One population contains every history of quadrature nodes over all k*n_chol fields (k = 1..3 consecutive steps), so the expectation of norm x walker is computed exactly and compared with exp(-dt(H-ene0))^k on a dt ladder; for every single history the accumulated norm times the orthonormal walker is compared with the un-normalised product of explicit propagator matrices, the stored overlap with the overlap of that state, the truncated exponential with scipy expm within its Taylor remainder; the sampler's free-projection block energy is recomputed from its returned trajectory for every stream of a virtual random source.",
+        note="norb <= 3 quick / 4 thorough, both spins present; floor 2e-9; second-order ratio judged in the small-dt tail and for n_exp_terms >= 6.",
+        design="2/C05"),
+    "C06": dict(
+        engine="seqmc",
+        technique="exhaustive enumeration of AD entry points x jvp/vjp (called exactly as the driver does) x block structures x every virtual-RNG stream x the complete basis of symmetric observables; forward-mode vs finite differences of the same primal, reverse vs forward, analytic one-body limit, density trace",
+        text="For a fixed random stream the block estimator is a deterministic function of the coupling; the virtual random source makes 'every seed' enumerable: every word over a 3-letter field alphabet on the varying draw positions x every comb-offset word. Derivatives are linear in the observable, so the complete symmetric basis decides every observable. Oracles: jvp == central difference of the same primal (smoothness pre-checked on the primal alone), <vjp density, O_b> == jvp response for every basis element, primal == plain sampler at zero coupling, one-body limit (zero Cholesky vector) energy = sum of occupied orbital energies and response = tr(rho O), per-spin trace of the AD density = n_sigma for a single block.",
+        note="3 orbitals, 3 walkers, 54-324 streams per cell; finite-difference tolerance 2e-6 relative; converged and undamped-stable SCF trial from an independent NumPy SCF.",
+        design="2/C06"),
+    "C08": dict(
+        engine="seqmc",
+        technique="breadth-first search over sampler/driver operation words x all virtual-RNG streams on the real objects; invariant from the guarded hook at every propagate() entry; differential replay through single public propagate() steps with explicit overlap refresh",
+        text="The operation alphabet is what the library can produce: the five sampler entry points with two block structures, each followed by the driver's glue (QR, global comb, e_estimate update); all words to depth 2 (3 thorough) are executed on the real sampler for both walker types and every stream; in every state the hook's max relative |cached - recomputed| overlap at propagate() entry must vanish, and the whole word is replayed in parallel through single public steps with an explicit refresh after every walker modification - weights, walkers and block energies must agree. Uneven start weights and a large time step make combs duplicate walkers (counted) so a missing refresh cannot hide.",
+        note="hook is add-only and guarded; streams: 3 field letters on 2 (3) draw positions; 4 walkers.",
+        design="2/C08"),
+    "C09": dict(
+        engine="seqmc",
+        technique="exhaustive enumeration of per-walker field histories (all words over a fault alphabet incl. overflowing letters) through real propagate() steps for every propagator class x dt x interaction x trial quality; invariants evaluated in every intermediate state",
+        text="One population holds every field history of length 3 (4 thorough) over {0,+-1,+-4,+-40,+-1e4,+-1e154} (phaseless) or every per-site word over {0,+-1,+-8} (CPMC; every internal uniform word for the neighbour propagators through the virtual random source); each propagate() and the sampler's block epilogue is a transition after which all invariants are evaluated: weights real, finite, >= 0, step factor in {0} U window, dead stay dead, shift finite while alive, killed fraction in [0,1].",
+        note="7 propagator classes x 4 time steps x weak/strong x good/poor trial; CPMC NaN weights after total extinction / after a rejected site at dt*U >= 24 are known findings (known_findings.json).",
+        design="2/C09"),
+    "C12": dict(
+        engine="seqmc",
+        technique="exhaustive enumeration of the sampler option matrix (entry point x walker type x block structure x batch count) x every virtual-RNG stream; differential oracle between entry points, public-call recomputation of the single-block estimator, bit-reproducibility in and across processes; driver.afqmc over its option matrix",
+        text="Every cell of entry point {plain, ad, ad_norot, ad_nosr, ad_nosr_norot, 2-RDM} x {restricted, unrestricted} x block structure x n_batch is called as the driver calls it for every stream (all words over 3 field letters on 4 (6) draw positions x comb-offset words); callable, equal energies for equal block structure, single-block estimator = weighted capped real local energy recomputed with public calls (capping forced by a far e_estimate letter), identical results on repetition and in another process, independent of n_batch; driver.afqmc itself over ad_mode x orbital_rotation x do_sr x walker_type under the virtual source.",
+        note="3 orbitals, 4 walkers; trial converged by an independent SCF and stable under the undamped Roothaan step.",
+        design="2/C12"),
+    "C14": dict(
+        engine="seqmc",
+        technique="exhaustive enumeration of population permutations (all 24 for 4 walkers), batch counts and single-walker substitutions on every batched routine incl. CPMC; restricted-vs-unrestricted differential runs over sampler entry points, block structures and driver option cells with the real jax.random",
+        text="Permutation equivariance, batch-count independence and single-walker substitution are checked on calc_overlap/energy/force_bias, _apply_trotprop, propagate, propagate_free and three CPMC propagators for every trial kind and both containers; the closed-shell restricted+RHF run is compared with the unrestricted+UHF run (equal blocks, same key) through every sampler entry point and through driver.afqmc.",
+        note="arithmetic compared at 1e-12 (2e-6 / 1e-6 for complex64 / finite-difference energies), container runs at 1e-9 (sampler) and 2e-6 (driver stores float32).",
+        design="2/C14"),
 }
 
 NOT_YET = {}
